@@ -351,6 +351,8 @@ class CallMixin:
 
     # ------------------------------------------------------------------ isinstance
     def isinstance_(self, v, c):
+        if isinstance(v, UVal) and v.t is not None and v.t.get_id() in self.ctx.views:
+            v = self.ctx.views[v.t.get_id()]
         if isinstance(c, tuple):
             res = False
             for x in c:
